@@ -183,14 +183,12 @@ fn load_units_from_dir(
             continue;
         }
 
-        // service and resource names are derived from the file name, which therefore has to be text
-        if name.to_str().is_none() {
+        // service and resource names are derived from the file name, and the whole path is written into the
+        // generated unit (SourcePath=, resolved relative paths): it has to be text
+        if path.as_os_str().to_str().is_none() {
             results.push(Err(RuntimeError::Io(
                 format!("Error loading {path:?}"),
-                io::Error::new(
-                    io::ErrorKind::InvalidData,
-                    "file name is not valid UTF-8",
-                ),
+                io::Error::new(io::ErrorKind::InvalidData, "path is not valid UTF-8"),
             )));
             continue;
         }
